@@ -135,19 +135,60 @@ def judge(w, files, part, origin, flags=(True, False), shrink=True, exact_sig=No
                 part.sample({'origin': origin, 'annotate': ann, 'mamba_head': files[0][1][:200], 'python_head': res['py'][0][:200], 'compiles': True})
             continue
         i, e, py = bad
+        e, line, off = pyrun.compiles(py, files[i][0] + '.py', detail=True)
         msg = norm_msg(e)
-        src = files[i][1]
-        small = src
-        if shrink and len(files) == 1:
-            def pred(t, ann=ann, msg=msg):
+        sig = exact_sig or f'pysyntax:{classify(msg, line, off)}'
+        small = files[i][1]
+        if shrink and len(files) == 1 and sig not in part.violations:
+            def pred(t, ann=ann, sig=sig):
                 r2 = w.pipe(t, annotate=ann)
                 if r2.get('k') != 'ok':
                     return False
-                e2 = pyrun.compiles(r2['py'][0])
-                return e2 is not None and norm_msg(e2) == msg
-            small = shrink_text(src, pred, budget=120)
-        sig = exact_sig or f'pysyntax:{msg}:{cause_tags(w, small)}'
-        part.violation(sig, {'kind': 'module', 'origin': origin, 'annotate': ann, 'files': files, 'shrunk': small, 'python': py[:3000], 'cpython': e})
+                d2 = pyrun.compiles(r2['py'][0], detail=True)
+                return d2 is not None and f'pysyntax:{classify(norm_msg(d2[0]), d2[1], d2[2])}' == sig
+            small = shrink_text(small, pred, budget=80)
+        part.violation(sig, {'kind': 'module', 'origin': origin, 'annotate': ann, 'files': files, 'shrunk': small, 'python': py[:3000], 'cpython': e, 'line': line})
+
+
+def line_shape(line):
+    """First tokens of the offending Python line with identifiers, numbers and strings normalised."""
+    toks = re.findall(r'[A-Za-z_]\w*|\d[\w.]*|"[^"]*"|\'[^\']*\'|[^\sA-Za-z_0-9]', line.strip())[:4]
+    out = []
+    for t in toks:
+        if re.match(r'[A-Za-z_]', t):
+            out.append(t if t in PY_KEYWORDS or t in ('print', 'range', 'self') else 'ID')
+        elif t[0].isdigit():
+            out.append('N')
+        elif t[0] in '"\'':
+            out.append('S')
+        else:
+            out.append(t)
+    return ' '.join(out)
+
+
+def classify(msg, line, off):
+    """Cause class of a refusal, read off the emitted text: small detectors for the shapes that are listed
+    findings, else the CPython message plus the shape of the offending line (so that a printer regression
+    lands in a signature of its own)."""
+    l = line.strip()
+    if re.search(r'(\breturn|=)\s+(if|for|while|match|try|with|class|def)\b', l) and not re.search(r'\bif\b.*\belse\b', l):
+        m = re.search(r'(\breturn|=)\s+(if|for|while|match|try|with|class|def)\b', l)
+        return f'statement-used-as-value:{"return" if m.group(1) == "return" else "assign"}-{m.group(2)}'
+    if 'leading zeros' in msg:
+        return 'leading-zero-literal'
+    if 'makes remaining patterns unreachable' in msg:
+        return 'irrefutable-case-not-last'
+    if 'f-string' in msg:
+        return 'f-string:' + msg.split(':', 2)[-1].strip()[:40]
+    if re.search(r'\[\s*,|,\s*\]|\[\s*\]', l) and ('->' in l or ':' in l):
+        return 'empty-type-argument'
+    if 'unterminated string' in msg or 'EOL while scanning' in msg:
+        return 'unterminated-string:' + line_shape(line)
+    if l.startswith('case ') and ('pattern' in msg or 'invalid syntax' in msg or 'expected' in msg):
+        return 'case-pattern:' + msg[:40]
+    if re.match(r'^(True|False|None)\b', l) or 'cannot assign to' in msg:
+        return 'assignment-target:' + msg[:40]
+    return f'other:{msg}:{line_shape(line)}'
 
 
 def shard(i, n, nfuzz, ngen):
@@ -169,7 +210,7 @@ def shard(i, n, nfuzz, ngen):
             part.count('samples')
     for kk, (cell, prog) in enumerate(sweeps.cells()):
         k += 1
-        if k % n == i and kk % 2 == common.SEED % 2:
+        if k % n == i and kk % 4 == common.SEED % 4:
             judge(w, lang.to_mamba(prog), part, 'sweep:' + cell, shrink=False)
     for j in range(ngen):
         k += 1
@@ -226,11 +267,11 @@ def main(tier):
     rep.assumptions = ['CPython 3.11 compile() defines "valid Python 3"', 'a refusal is attributed to a cause tag found by small detectors in the shrunk Mamba input (literal shapes, '
                        'Python keywords as identifiers, ...); an input without such a shape gets the tag of its statement kinds, so a printer regression cannot hide behind a literal-shape finding']
     replay_entries(rep)
-    nfuzz, ngen = (24000, 150) if tier == 'quick' else (500000, 4000)
+    nfuzz, ngen = (12000, 60) if tier == 'quick' else (500000, 4000)
     for d in run_shards(shard, (nfuzz, ngen)):
         rep.merge(d)
     acc_fuzz = sum(v for k, v in rep.cov.items() if k.startswith('origin-accepted:') and k.split(':')[1] in ('mutated-sample', 'mutated-generated', 'typefuzz', 'soup'))
-    floors = [('>= 2% of fuzz inputs accepted', acc_fuzz >= 0.02 * nfuzz), ('>= 2500 accepted modules compiled', rep.cov.get('accepted', 0) >= 2500),
+    floors = [('>= 2% of fuzz inputs accepted', acc_fuzz >= 0.02 * nfuzz), ('>= 1500 accepted modules compiled', rep.cov.get('accepted', 0) >= 1500),
               (f'all {len(SHAPES)} shape cells evaluated', rep.cov.get('shape-cells', 0) == len(SHAPES))]
     return rep.finish(floors, extra_cov={'fuzz_inputs_accepted': acc_fuzz})
 
